@@ -155,6 +155,12 @@ func (t *wScreen) drawCell(x, y int) int {
 
 	t.cells.SetDirty(x, y, false)
 	js.Global().Call("drawCell", x, y, s, fg, bg, int(style.attrs), int(us), int(uc))
+	// The page keeps one node per column.  A wide rune fills the columns
+	// it covers by itself, so their nodes have to be emptied, or what they
+	// held before stays on the page next to it.
+	for i := 1; i < width && x+i < t.w; i++ {
+		js.Global().Call("drawCell", x+i, y, "", fg, bg, int(style.attrs), int(us), int(uc))
+	}
 
 	return width
 }
